@@ -46,7 +46,7 @@ class C01(Property):
                      "toctou"]
             rng.shuffle(kinds)
             cfg["fault_kinds"] = sorted(kinds[: rng.randrange(1, len(kinds) + 1)])
-            cfg["fault_rate"] = rng.pick([0.1, 0.2, 0.3])
+            cfg["fault_rate"] = rng.pick([0.3, 0.5, 0.7])
             cfg["env_kinds"] = cfg["env_kinds"] + rng.pick([[], ["env.capacity", "env.heal"],
                                                             ["env.handle_budget", "env.heal"],
                                                             ["env.readonly", "env.heal"],
